@@ -147,6 +147,29 @@ fn collect(prop: &PropDef, tier: &str, c: &Child, status: i32, timed_out: bool) 
     res
 }
 
+/// CPU seconds (user + system, all threads) a process has consumed so far.
+fn cpu_seconds(pid: i32) -> Option<f64> {
+    let text = std::fs::read_to_string(format!("/proc/{pid}/stat")).ok()?;
+    // fields after the parenthesised command name; utime and stime are fields 14 and 15
+    let rest = &text[text.rfind(')')? + 2..];
+    let f: Vec<&str> = rest.split_whitespace().collect();
+    let ut: f64 = f.get(11)?.parse().ok()?;
+    let st: f64 = f.get(12)?.parse().ok()?;
+    let hz = unsafe { libc::sysconf(libc::_SC_CLK_TCK) } as f64;
+    Some((ut + st) / hz.max(1.0))
+}
+
+/// A run is over its limit when it has *consumed* `cpu_limit` seconds of CPU (runaway loop) or
+/// has been alive for `wall_limit` seconds (blocked forever). Wall-clock time alone is not a
+/// reason: on a loaded machine a legitimate 20-CPU-second run can take minutes.
+fn over_limit(pid: i32, started: Instant, cpu_limit: f64, wall_limit: f64) -> bool {
+    let wall = started.elapsed().as_secs_f64();
+    if wall > wall_limit {
+        return true;
+    }
+    wall > cpu_limit && cpu_seconds(pid).map_or(true, |c| c > cpu_limit)
+}
+
 pub fn run_pool(
     prop: &PropDef,
     tier: &str,
@@ -200,7 +223,7 @@ pub fn run_pool(
             // nobody finished: check time limits, then nap
             let over: Vec<i32> = live
                 .iter()
-                .filter(|(_, c)| c.started.elapsed().as_secs_f64() > per_run_limit)
+                .filter(|(p, c)| over_limit(**p, c.started, per_run_limit, per_run_limit * 8.0))
                 .map(|(p, _)| *p)
                 .collect();
             for p in over {
@@ -238,7 +261,7 @@ pub fn run_spec_in_child(prop: &PropDef, spec: &RunSpec, limit_s: f64) -> RunRes
             let _ = std::fs::remove_dir_all(&root);
             return r;
         }
-        if start.elapsed().as_secs_f64() > limit_s {
+        if over_limit(c.pid, start, limit_s, limit_s * 4.0) {
             unsafe {
                 libc::kill(c.pid, libc::SIGKILL);
                 libc::waitpid(c.pid, &mut status, 0);
